@@ -15,13 +15,13 @@ PROPS = {
     ),
     "C02": dict(
         lean=["Rscp.Props.C02", "Rscp.Tie.Reader"],
-        streams=[dict(name="any", quick=250, thorough=3000, thorough_seeds=3)],
+        streams=[dict(name="any", quick=120, thorough=3000, thorough_seeds=3)],
         trusted_base=CODEC_TB,
         assumptions=["'promptly' is shown as: the model's recursion stays within fuel = input length + 2; wall-clock per case is bounded by a 20 s watchdog in the harness"],
     ),
     "C03": dict(
         lean=["Rscp.Props.C03", "Rscp.Tie.Reader"],
-        streams=[dict(name="any", quick=250, thorough=3000, thorough_seeds=3, oracle_ops=["spec "])],
+        streams=[dict(name="any", quick=120, thorough=3000, thorough_seeds=3, oracle_ops=["spec "])],
         trusted_base=CODEC_TB,
     ),
     "C04": dict(
